@@ -501,7 +501,10 @@ func runC16Scenario(r *rand.Rand, sh *core.Shard, nconns int, faults []string, f
 
 func runC16Expiry(sh *core.Shard, disable bool, k int, tenant string) (sig, what string, inconclusive string) {
 	key := []byte("c16-expiry-secret-0123456789abcdef")
-	o := NodeOpts{UpstreamAuth: auth.Config{HMACSecretKey: string(key), DisableDisconnectOnExpiry: disable}, GossipInterval: 50 * time.Millisecond}
+	// 2 s grace period: the shutdown at the end runs with a client that has
+	// connected to the upstream port but not sent its request yet, so the
+	// graceful HTTP shutdown of that port runs out of time
+	o := NodeOpts{UpstreamAuth: auth.Config{HMACSecretKey: string(key), DisableDisconnectOnExpiry: disable}, GossipInterval: 50 * time.Millisecond, GracePeriod: 2 * time.Second}
 	if tenant != "" {
 		// the connections authenticate under a tenant with its own key
 		o.UpstreamAuth = auth.Config{HMACSecretKey: "c16-default-key-unused-0123456789ab"}
@@ -596,6 +599,15 @@ func runC16Expiry(sh *core.Shard, disable bool, k int, tenant string) (sig, what
 	}
 	if d := rg.quiesce("connect before shutdown"); d != "" {
 		return "views-disagree", d, ""
+	}
+	// a client in mid-connect: TCP connection to the upstream port established,
+	// upgrade request not sent yet; the graceful shutdown cannot finish in the
+	// grace period because of it, and upstream connections must be ended all the same
+	if slow, err := net.DialTimeout("tcp", n.UpstreamAddr(), 5*time.Second); err == nil {
+		defer slow.Close()
+		_, _ = slow.Write([]byte("GET /piko/v1/upstream/slow HTTP/1.1\r\nHost: x\r\n"))
+		time.Sleep(50 * time.Millisecond)
+		sh.Count("shutdowns_with_a_client_in_mid_connect", 1)
 	}
 	n.Stop()
 	ok := core.WaitUntil(15*time.Second, 5*time.Millisecond, func() bool {
@@ -701,12 +713,12 @@ func runC16(sh *core.Shard, a props.Args) {
 func init() {
 	props.Register(&props.Prop{
 		ID: "C16", Level: "fault_enumeration", Race: true, Parallel: 8,
-		Rule: "a fully assembled real node (race build) observed through four views: the manager's registry, the local routing-table entry, the locally published gossip entries and the open-session count. Upstream connections are a seeded mix of raw WebSocket+yamux clients (no reconnect), reconnecting client listeners, and listeners behind an interposed TCP proxy; 1-24 of them over shared and distinct endpoints, with three request goroutines running throughout. Fault list: client disconnect of a random subset; every connection of one endpoint; go-away then requests then disconnect; go-away with sibling upstreams (the double-removal trigger); TCP cut of every interposed connection by FIN and by RST (listeners reconnect); server-side shedding through Rebalance with an injected idle peer (raw clients end, listeners reconnect); more connects. Every fault is run alone with both endings (all clients leave / server shutdown with raw clients attached) and in seeded sequences of 2-7 faults. Oracle at every quiescent point (polled, 20 s watchdog => violation because the views never converged): the four views are equal and equal the connections the harness holds open (go-away'd ones may or may not still be counted); at the end all four are empty and, on shutdown, every raw client saw its session end. Token expiry: 9 raw clients with tokens expiring 3-5 s ahead or never, with disconnect-on-expiry enabled and disabled, authenticated with the default key and under a tenant with its own key; the server must close exactly the expiring ones within [T-1.1 s, T+5 s], and none when disabled or without exp (observed for 11 s). Distinct = hash of (fault sequence, ending, size).",
+		Rule: "a fully assembled real node (race build) observed through four views: the manager's registry, the local routing-table entry, the locally published gossip entries and the open-session count. Upstream connections are a seeded mix of raw WebSocket+yamux clients (no reconnect), reconnecting client listeners, and listeners behind an interposed TCP proxy; 1-24 of them over shared and distinct endpoints, with three request goroutines running throughout. Fault list: client disconnect of a random subset; every connection of one endpoint; go-away then requests then disconnect; go-away with sibling upstreams (the double-removal trigger); TCP cut of every interposed connection by FIN and by RST (listeners reconnect); server-side shedding through Rebalance with an injected idle peer (raw clients end, listeners reconnect); more connects. Every fault is run alone with both endings (all clients leave / server shutdown with raw clients attached) and in seeded sequences of 2-7 faults. Oracle at every quiescent point (polled, 20 s watchdog => violation because the views never converged): the four views are equal and equal the connections the harness holds open (go-away'd ones may or may not still be counted); at the end all four are empty and, on shutdown, every raw client saw its session end. Token expiry: 9 raw clients with tokens expiring 3-5 s ahead or never, with disconnect-on-expiry enabled and disabled, authenticated with the default key and under a tenant with its own key; the server must close exactly the expiring ones within [T-1.1 s, T+5 s], and none when disabled or without exp (observed for 11 s); the node is then shut down with a 2 s grace period while a client is in mid-connect on the upstream port (TCP established, request incomplete), so the graceful HTTP shutdown times out: every upstream connection must be ended all the same. Distinct = hash of (fault sequence, ending, size).",
 		Assumptions: []string{
 			"expiry bounds: T is known to whole seconds (JWT), the window allows 1.1 s before and 5 s after; these are the only wall-clock verdicts",
 			"rebalance parameters swapped through a verif-tagged setter",
 		},
-		RequireCounters: []string{"quiescent_points_checked", "scenarios_ending_empty", "closed_at_expiry", "kept_open", "shutdown_with_token_upstreams", "fault_shed", "fault_cut-rst", "fault_goaway-with-sibling"},
+		RequireCounters: []string{"quiescent_points_checked", "scenarios_ending_empty", "closed_at_expiry", "kept_open", "shutdown_with_token_upstreams", "shutdowns_with_a_client_in_mid_connect", "fault_shed", "fault_cut-rst", "fault_goaway-with-sibling"},
 		Shards:          func(string) int { return 16 },
 		Run:             runC16,
 	})
